@@ -6,6 +6,7 @@ import fractions
 import itertools
 import math
 import random
+import re
 import types
 
 from bv.common import Property, Failure, time_limit, exc_name
@@ -119,6 +120,32 @@ def build_pos(kind, data, kp):
     raise ValueError(kind)
 
 
+_JUNK = ('#caller', 10 ** 6)
+
+
+def spoil(obj):
+    """what a caller may do with a container an API call handed back: reorder it, drop and add entries, empty
+    it (and the same for mutable elements). Only ever applied to RETURNED objects / to arguments after the call
+    that received them has returned; never reaches into the counter."""
+    try:
+        if isinstance(obj, list):
+            for x in obj:
+                if isinstance(x, (list, dict, set)):
+                    x.clear()
+            obj.reverse()
+            if obj:
+                obj.pop()
+            obj.append(_JUNK)
+            obj.insert(0, _JUNK)
+        elif isinstance(obj, (dict, set, collections.deque, collections.UserDict)):
+            obj.clear()
+        elif hasattr(obj, '__next__'):
+            for _ in obj:       # exhaust a returned iterator
+                pass
+    except Exception:
+        pass
+
+
 class C20(Property):
     PID = 'C20'
     QUICK_BUDGET_S = 40
@@ -126,7 +153,12 @@ class C20(Property):
     RULE = ('a case is one whole history over 1-3 counters of one threshold (float, Fraction or Decimal): add / '
             'update(positional, **kw) / update(other counter or the counter itself) / re-creation of a counter / '
             'most_common(n) calls over a small key alphabet; every reader of EVERY counter is dumped after every '
-            'mutator (in a per-case reader order). The positional argument is None, one of 9 iterable kinds '
+            'mutator (in a per-case reader order); every container a reader hands back (items/keys/values/most_common '
+            'lists, most_common(n) list, elements/iterkeys iterators) is then modified in place by the caller (reordered, '
+            'entries dropped and added / exhausted) and the reader is asked again with nothing added in between: the '
+            'second answer must be the first; every mutable argument of update() is emptied or polluted after the call '
+            'returned. most_common results are compared up to the order among equal counts (and the choice among ties '
+            'at the cut of most_common(n)); get_commonality() as the exact ratio it stands for. The positional argument is None, one of 9 iterable kinds '
             '(list, generator, tuple, iterator, dict keys view, deque, __getitem__-only sequence, falsy __iter__-only '
             'object, frozenset) or one of 8 mapping kinds (dict, mappingproxy, UserDict, ChainMap with overlapping '
             'maps, Counter, OrderedDict, defaultdict, abc.Mapping subclass), combined with keyword counts whose keys '
@@ -143,8 +175,8 @@ class C20(Property):
             'survives" streams. Non-trivial = at least one compaction happened and at least one key was evicted or '
             'under-counted; distinct = distinct case.')
     ASSUMPTIONS = ['keys are hashable with == consistent with hash; counts in mappings are non-negative ints',
-                   'model parameter w = floor(1/threshold) is computed by the harness (float division for float '
-                   'thresholds, exact rational arithmetic for Fraction / Decimal thresholds)',
+                   'model parameter w = floor(1/threshold) is computed by the harness with float division for float '
+                   'thresholds; Fraction / Decimal thresholds are handed to the model as p/q (its constructor derives w)',
                    'a ThresholdCounter passed to update() counts as the mapping its items() reports at that moment']
     CORRESPONDENCE_NAME = 'C20.Driver (ThresholdCounter model) vs boltons.cacheutils.ThresholdCounter'
 
@@ -617,7 +649,10 @@ class C20(Property):
         def ns(l):
             return ','.join(map(str, l)) or '-'
         ni = case.get('ni', 1)
-        toks = [str(self.w_of(case)), str(case['nk']) + ('x%d' % ni if ni > 1 else '')]
+        ex = self.th_exact(case)
+        # exact thresholds (Fraction / Decimal) go to the model as p/q: its constructor derives the bucket width
+        toks = [str(self.w_of(case)) if ex is None else '%d/%d' % (ex.numerator, ex.denominator),
+                str(case['nk']) + ('x%d' % ni if ni > 1 else '')]
         if case.get('sp'):
             run = []
             for i, op in enumerate(case['ops']):
@@ -689,31 +724,37 @@ class C20(Property):
                     if kind == 'i':
                         cur = op[1]
                         continue
+                    arg = None      # the object handed to update(); the caller empties it after the call
                     if kind == 'a':
                         tc.add(K(op[1]))
                     elif kind == 'u':
-                        tc.update([K(k) for k in op[1]])
+                        arg = [K(k) for k in op[1]]
+                        tc.update(arg)
                     elif kind == 'ug':
                         tc.update(K(k) for k in op[1])
                     elif kind == 'ut':
                         tc.update(tuple(K(k) for k in op[1]))
                     elif kind == 'm':
-                        tc.update({K(k): c for k, c in op[1]})
+                        arg = {K(k): c for k, c in op[1]}
+                        tc.update(arg)
                     elif kind == 'kw':
                         tc.update(**{K(k): c for k, c in op[1]})
                     elif kind == 'mkw':
                         half = len(op[1]) // 2
-                        tc.update({K(k): c for k, c in op[1][:half]}, **{K(k): c for k, c in op[1][half:]})
+                        arg = {K(k): c for k, c in op[1][:half]}
+                        tc.update(arg, **{K(k): c for k, c in op[1][half:]})
                     elif kind == 'mp':      # read-only mapping proxy (a Mapping that is not a dict)
                         tc.update(types.MappingProxyType({K(k): c for k, c in op[1]}))
                     elif kind == 'ud':
-                        tc.update(collections.UserDict({K(k): c for k, c in op[1]}))
+                        arg = collections.UserDict({K(k): c for k, c in op[1]})
+                        tc.update(arg)
                     elif kind == 'cm':
                         half = len(op[1]) // 2
                         tc.update(collections.ChainMap({K(k): c for k, c in op[1][:half]},
                                                        {K(k): c for k, c in op[1][half:]}))
                     elif kind == 'tc':      # another counter-like object exposing items()
-                        tc.update(collections.Counter({K(k): c for k, c in op[1]}))
+                        arg = collections.Counter({K(k): c for k, c in op[1]})
+                        tc.update(arg)
                     elif kind == 'up':
                         kw = {K(k): c for k, c in (op[3] or [])}
                         if op[1] == 'none':
@@ -722,16 +763,28 @@ class C20(Property):
                             else:
                                 tc.update(**kw)
                         elif op[3] is None:
-                            tc.update(build_pos(op[1], op[2], kp))
+                            arg = build_pos(op[1], op[2], kp)
+                            tc.update(arg)
                         else:
-                            tc.update(build_pos(op[1], op[2], kp), **kw)
+                            arg = build_pos(op[1], op[2], kp)
+                            tc.update(arg, **kw)
+                        spoil(kw)
                     elif kind == 't':       # another ThresholdCounter (or this one) as the mapping
                         tc.update(tcs[op[1]])
                     elif kind == 'n':
                         tcs[cur] = ThresholdCounter(threshold=th)
                     elif kind == 'q':
-                        out.append({'q': [[kname(k), c] for k, c in tc.most_common(op[1])]})
+                        # the caller post-processes the list it got back, then asks again (nothing was added)
+                        res = tc.most_common(op[1])
+                        rec = {'q': [[kname(k), c] for k, c in res]}
+                        spoil(res)
+                        again = [[kname(k), c] for k, c in tc.most_common(op[1])]
+                        if again != rec['q']:
+                            rec['q2'] = again
+                        out.append(rec)
                         continue
+                    if arg is not None:
+                        spoil(arg)
                     if self.dumps_after(case, opi):
                         out.append({'d': [self.dump(t, case, kname) for t in tcs]})
         except Exception as e:  # recorded, judged by the oracle
@@ -742,26 +795,59 @@ class C20(Property):
                'iter', 'getitem')
 
     def dump(self, tc, case, kname):
+        """every reader is called, the object it returned is handed to a caller who modifies it in place
+        (`spoil`), and the reader is called again: with no addition in between the second answer must be the
+        first one (readers whose two answers differ are recorded under 'reread')"""
         nk, kp = case['nk'], case.get('kp', 0)
-        fns = {
-            'total': lambda: tc.total,
-            'items': lambda: [[kname(k), c] for k, c in tc.items()],
-            'keys': lambda: [kname(k) for k in tc.keys()],
-            'values': lambda: list(tc.values()),
-            'len': lambda: len(tc),
-            'common': lambda: tc.get_common_count(),
-            'uncommon': lambda: tc.get_uncommon_count(),
-            'mc': lambda: [[kname(k), c] for k, c in tc.most_common()],
-            'gets': lambda: [tc.get(key(k, kp)) for k in range(nk)],
-            'has': lambda: [1 if key(k, kp) in tc else 0 for k in range(nk)],
-            'elements': lambda: [kname(k) for k in tc.elements()],
-            'iter': lambda: [kname(k) for k in tc.iterkeys()],
-            'getitem': lambda: [tc[k] for k in tc.keys()],
+        ident = lambda v: v
+        pairs = lambda v: [[kname(k), c] for k, c in v]
+        names = lambda v: [kname(k) for k in v]
+        fns = {     # name -> (call returning the API's own object, canonical JSON form of it)
+            'total': (lambda: tc.total, ident),
+            'items': (tc.items, pairs),
+            'keys': (tc.keys, names),
+            'values': (tc.values, list),
+            'len': (lambda: len(tc), ident),
+            'common': (tc.get_common_count, ident),
+            'uncommon': (tc.get_uncommon_count, ident),
+            'mc': (tc.most_common, pairs),
+            'gets': (lambda: [tc.get(key(k, kp)) for k in range(nk)], ident),
+            'has': (lambda: [1 if key(k, kp) in tc else 0 for k in range(nk)], ident),
+            'elements': (tc.elements, names),
+            'iter': (tc.iterkeys, names),
+            'getitem': (lambda: [tc[k] for k in tc.keys()], ident),
         }
         order = list(self.READERS)
         if 'ro' in case:
             random.Random(case['ro']).shuffle(order)
-        return {name: fns[name]() for name in order}
+        d = {}
+        for name in order:
+            call, canon = fns[name]
+            raw = call()
+            d[name] = canon(raw)
+            if name in self.CONTAINERS:
+                spoil(raw)
+        reread = {}
+        for name in order:
+            if name in self.CONTAINERS:
+                call, canon = fns[name]
+                v = canon(call())
+                if v != d[name]:
+                    reread[name] = v
+        if reread:
+            d['reread'] = reread
+        d['commonality'] = self.commonality(tc)
+        return d
+
+    CONTAINERS = ('items', 'keys', 'values', 'mc', 'elements', 'iter')
+
+    @staticmethod
+    def commonality(tc):
+        """get_commonality() as a float, None when it raises (empty counter: outside the statement)"""
+        try:
+            return float(tc.get_commonality())
+        except Exception:
+            return None
 
     def render(self, case, obs):
         def kn(s):
@@ -772,19 +858,47 @@ class C20(Property):
 
         def nats(l):
             return ','.join(str(x) for x in l) or '-'
+
+        def canon(l):
+            """most_common results: count descending, ties in key order (the statement fixes the count order only)"""
+            def ck(p):
+                k = kn(p[0])
+                return (-p[1], (0, int(k), '') if k.isdigit() else (1, 0, k))
+            try:
+                return sorted(l, key=ck)
+            except Exception:
+                return list(l)
+
+        def top(l):
+            """most_common(n): the keys with the smallest returned count are not named (free choice among ties)"""
+            l = canon(l)
+            return ','.join('%s:%s' % (kn(k) if c != l[-1][1] else '*', c) for k, c in l) or '-'
         recs = []
         for o in obs:
             if 'exc' in o:
                 recs.append('X' + o['exc'])
             elif 'q' in o:
-                recs.append('Q' + pairs(o['q']))
+                recs.append('Q' + top(o['q']) + ('!reread' if 'q2' in o else ''))
             else:
                 recs.append(' | '.join(' '.join([
                     'T%d' % d['total'], 'I' + pairs(d['items']), 'K' + nats(kn(k) for k in d['keys']),
                     'V' + nats(d['values']), 'L%d' % d['len'], 'C%d' % d['common'], 'U%d' % d['uncommon'],
-                    'M' + pairs(d['mc']), 'G' + nats(d['gets']), 'H' + nats(d['has']),
-                    'E' + nats(kn(k) for k in d['elements'])]) for d in o['d']))
+                    'M' + pairs(canon(d['mc'])), 'G' + nats(d['gets']), 'H' + nats(d['has']),
+                    'E' + nats(kn(k) for k in d['elements']), self.render_commonality(d)] +
+                    (['!reread:' + ','.join(sorted(d['reread']))] if d.get('reread') else [])) for d in o['d']))
         return ';'.join(recs)
+
+    @staticmethod
+    def render_commonality(d):
+        """get_commonality() is a float: rendered as the ratio n/total it stands for (n = the integer nearest to
+        value * total, accepted within 1e-6), `R-` on a counter without additions whatever the code did there"""
+        v, t = d.get('commonality'), d['total']
+        if not t:
+            return 'R-'
+        if v is None or v != v or abs(v) > 2:
+            return 'R?%r' % (v,)
+        n = round(v * t)
+        return 'R%d/%d' % (n, t) if abs(v * t - n) < 1e-6 else 'R?%r' % (v,)
 
     # ------------------------------------------------------------------ oracle (independent of the model)
     def op_additions(self, case, op, last_items):
@@ -815,6 +929,7 @@ class C20(Property):
         return add
 
     def oracle(self, case, obs):
+        self._last = (case, obs)
         w = self.w_of(case)
         ex = self.th_exact(case)
         ni = case.get('ni', 1)
@@ -849,6 +964,10 @@ class C20(Property):
                 n = op[1]
                 res = o['q']
                 items = last_items[cur]
+                if 'q2' in o:
+                    return Failure('reread', 'most_common(%d) returned %r, and %r when asked again after the caller '
+                                   'modified the first list in place (nothing was added in between); items %r'
+                                   % (n, res, o['q2'], items))
                 cnts = sorted((c for _, c in items), reverse=True)
                 if n <= 0:
                     if res != []:
@@ -893,6 +1012,11 @@ class C20(Property):
     def judge(self, o, true, total, w, case, ex):
         """every clause of the statement on one dump of one counter"""
         th = case['th']
+        if o.get('reread'):
+            name = sorted(o['reread'])[0]
+            api = {'mc': 'most_common', 'iter': 'iterkeys'}.get(name, name)
+            return Failure('reread', '%s() returned %r, and %r when asked again after the caller modified the first '
+                           'result in place (nothing was added in between)' % (api, o[name], o['reread'][name]))
         if o['total'] != total:
             return Failure('total', 'total %d after %d additions' % (o['total'], total))
         slack = total // w
@@ -934,7 +1058,40 @@ class C20(Property):
     # known finding: the Lossy Counting algorithm itself exceeds 2/threshold (Lean: C20.size_bound_false);
     # an excess is that finding only when the implementation still behaves like the verified model
     def finding_size_bound(self, case, failure):
-        return failure.tag == 'size_bound' and getattr(failure, 'model_agrees', None) is not False
+        if failure.tag != 'size_bound':
+            return False
+        if getattr(failure, 'model_agrees', None) is not False:
+            return True
+        # model and implementation differ somewhere on this case. The finding is about WHICH KEYS ARE TRACKED: it is
+        # still the known finding when, after every mutator, total and the tracked keys with their counts (as a
+        # set) are exactly the verified model's - whatever else differs (order of ties in most_common, dict
+        # order, get_commonality ...) is either free or reported by its own clause (size_bound is judged last)
+        try:
+            last = getattr(self, '_last', None)
+            if last is None or last[0] is not case:
+                return False
+            from bv.common import Driver
+            drv = Driver(self.PID)
+            ln = self.line(case)
+            if ln is None or not drv.available():
+                return False
+            return self.core_text(drv.query([ln])[0]) == self.core_text(self.render(case, last[1]))
+        except Exception:
+            return False
+
+    @staticmethod
+    def core_text(text):
+        """of a correspondence text: per dump `T<total>` and the `I` pairs as a sorted list"""
+        out = []
+        for rec in text.split(';'):
+            if rec[:1] in ('Q', 'X'):
+                continue
+            for d in rec.split(' | '):
+                toks = d.split(' ')
+                t = [x for x in toks if x[:1] == 'T']
+                i = [x for x in toks if x[:1] == 'I']
+                out.append((t, sorted(i[0][1:].split(',')) if i else None))
+        return out
 
     def shrink(self, case):
         ops = case['ops']
